@@ -4166,7 +4166,14 @@ static inline bool ts_query_cursor__advance(
           break;
         default:
           if (ts_tree_cursor_goto_parent(&self->cursor)) {
-            self->depth--;
+            // The parent is the nearest visible ancestor. If the walk stopped on a hidden
+            // node (one that was not descended into, e.g. because it lies outside of the
+            // cursor's range), the depth was already adjusted when stepping onto it.
+            if (self->on_visible_node) {
+              self->depth--;
+            } else {
+              self->on_visible_node = true;
+            }
           } else {
             LOG("halt at root\n");
             self->halted = true;
